@@ -836,5 +836,10 @@ func DeleteVirtualTable(tname *string, orgid int64) error {
 		log.Errorf("DeleteVirtualTable : Error writing to vtableFilename=%v, Error=%v", vTableFileName, errW)
 		return errW
 	}
+	// keep the in-memory table in step with the file: a name left in it makes the next AddVirtualTable of the same
+	// name a no-op, so a re-created index would stay out of the file (and out of wildcard searches)
+	globalTableAccessLock.Lock()
+	delete(allVirtualTables[orgid], *tname)
+	globalTableAccessLock.Unlock()
 	return nil
 }
